@@ -1,0 +1,341 @@
+//go:build verif
+
+package astisub
+
+// Verification hooks for EBU STL (build tag "verif"): exported pass-through wrappers around unexported
+// functions and read-only lookups in package-level tables. Add-only; never compiled without the tag.
+
+import (
+	"time"
+
+	"golang.org/x/text/unicode/norm"
+)
+
+// VerifSTLTableGet looks a byte up in the character code table with the given number
+func VerifSTLTableGet(table uint16, k int) (string, bool) {
+	m, ok := stlCharacterCodeTables[table]
+	if !ok {
+		return "", false
+	}
+	v, ok := m.Get(k)
+	if !ok {
+		return "", false
+	}
+	return v.(string), true
+}
+
+// VerifSTLTableExists tells whether a character code table exists
+func VerifSTLTableExists(table uint16) bool {
+	_, ok := stlCharacterCodeTables[table]
+	return ok
+}
+
+// VerifSTLUnicodeMappingGet / GetInverse look up stlUnicodeMapping
+func VerifSTLUnicodeMappingGet(b byte) (string, bool) {
+	v, ok := stlUnicodeMapping.Get(b)
+	if !ok {
+		return "", false
+	}
+	return v.(string), true
+}
+func VerifSTLUnicodeMappingGetInverse(s string) (byte, bool) {
+	v, ok := stlUnicodeMapping.GetInverse(s)
+	if !ok {
+		return 0, false
+	}
+	return v.(byte), true
+}
+
+// VerifSTLUnicodeDiacriticGet / GetInverse look up stlUnicodeDiacritic
+func VerifSTLUnicodeDiacriticGet(b byte) (string, bool) {
+	v, ok := stlUnicodeDiacritic.Get(b)
+	if !ok {
+		return "", false
+	}
+	return v.(string), true
+}
+func VerifSTLUnicodeDiacriticGetInverse(s string) (byte, bool) {
+	v, ok := stlUnicodeDiacritic.GetInverse(s)
+	if !ok {
+		return 0, false
+	}
+	return v.(byte), true
+}
+
+// VerifSTLFramerateGet / GetInverse look up stlFramerateMapping
+func VerifSTLFramerateGet(s string) (int, bool) {
+	v, ok := stlFramerateMapping.Get(s)
+	if !ok {
+		return 0, false
+	}
+	return v.(int), true
+}
+func VerifSTLFramerateGetInverse(f int) (string, bool) {
+	v, ok := stlFramerateMapping.GetInverse(f)
+	if !ok {
+		return "", false
+	}
+	return v.(string), true
+}
+
+// VerifSTLLanguageGet / GetInverse look up stlLanguageMapping
+func VerifSTLLanguageGet(s string) (string, bool) {
+	v, ok := stlLanguageMapping.Get(s)
+	if !ok {
+		return "", false
+	}
+	return v.(string), true
+}
+func VerifSTLLanguageGetInverse(s string) (string, bool) {
+	v, ok := stlLanguageMapping.GetInverse(s)
+	if !ok {
+		return "", false
+	}
+	return v.(string), true
+}
+
+// VerifNFC / VerifNFD / VerifCCC expose the normalisation forms the STL code uses (vendored x/text)
+func VerifNFC(b []byte) []byte { return norm.NFC.Bytes(b) }
+func VerifNFD(b []byte) []byte { return norm.NFD.Bytes(b) }
+func VerifCCC(r rune) uint8    { return norm.NFD.PropertiesString(string(r)).CCC() }
+
+// VerifSTLConstants returns the constants the STL reader and writer use
+func VerifSTLConstants() map[string]int {
+	return map[string]int{
+		"blockSizeGSI":           stlBlockSizeGSI,
+		"blockSizeTTI":           stlBlockSizeTTI,
+		"cctLatin":               int(stlCharacterCodeTableNumberLatin),
+		"codePageMultilingual":   int(stlCodePageNumberMultilingual),
+		"lineSeparator":          stlLineSeparator,
+		"ebnUserData":            extensionBlockNumberReservedUserData,
+		"justificationUnchanged": int(JustificationUnchanged),
+		"justificationLeft":      int(JustificationLeft),
+		"justificationCentered":  int(JustificationCentered),
+		"justificationRight":     int(JustificationRight),
+		"jcUnchanged":            int(stlJustificationCodeUnchangedPresentation),
+		"jcLeft":                 int(stlJustificationCodeLeftJustifiedText),
+		"jcCentred":              int(stlJustificationCodeCentredText),
+		"jcRight":                int(stlJustificationCodeRightJustifiedText),
+	}
+}
+
+// VerifSTLStrings returns the string constants the STL writer uses as defaults
+func VerifSTLStrings() map[string]string {
+	return map[string]string{
+		"countryFrance":   stlCountryCodeFrance,
+		"dscOpen":         stlDisplayStandardCodeOpenSubtitling,
+		"dscLevel1":       stlDisplayStandardCodeLevel1Teletext,
+		"dscLevel2":       stlDisplayStandardCodeLevel2Teletext,
+		"languageFrench":  stlLanguageCodeFrench,
+		"timecodeStatus1": stlTimecodeStatusIntendedForUse,
+	}
+}
+
+// VerifGSI mirrors gsiBlock with exported fields
+type VerifGSI struct {
+	CharacterCodeTableNumber                         uint16
+	CodePageNumber                                   uint32
+	CountryOfOrigin                                  string
+	CreationDate                                     time.Time
+	DiskSequenceNumber                               int
+	DisplayStandardCode                              string
+	EditorContactDetails                             string
+	EditorName                                       string
+	Framerate                                        int
+	LanguageCode                                     string
+	MaximumNumberOfDisplayableCharactersInAnyTextRow int
+	MaximumNumberOfDisplayableRows                   int
+	OriginalEpisodeTitle                             string
+	OriginalProgramTitle                             string
+	Publisher                                        string
+	RevisionDate                                     time.Time
+	RevisionNumber                                   int
+	SubtitleListReferenceCode                        string
+	TimecodeFirstInCue                               time.Duration
+	TimecodeStartOfProgramme                         time.Duration
+	TimecodeStatus                                   string
+	TotalNumberOfDisks                               int
+	TotalNumberOfSubtitleGroups                      int
+	TotalNumberOfSubtitles                           int
+	TotalNumberOfTTIBlocks                           int
+	TranslatedEpisodeTitle                           string
+	TranslatedProgramTitle                           string
+	TranslatorContactDetails                         string
+	TranslatorName                                   string
+	UserDefinedArea                                  string
+}
+
+func verifGSIFrom(g *gsiBlock) VerifGSI {
+	return VerifGSI{
+		CharacterCodeTableNumber: g.characterCodeTableNumber,
+		CodePageNumber:           g.codePageNumber,
+		CountryOfOrigin:          g.countryOfOrigin,
+		CreationDate:             g.creationDate,
+		DiskSequenceNumber:       g.diskSequenceNumber,
+		DisplayStandardCode:      g.displayStandardCode,
+		EditorContactDetails:     g.editorContactDetails,
+		EditorName:               g.editorName,
+		Framerate:                g.framerate,
+		LanguageCode:             g.languageCode,
+		MaximumNumberOfDisplayableCharactersInAnyTextRow: g.maximumNumberOfDisplayableCharactersInAnyTextRow,
+		MaximumNumberOfDisplayableRows:                   g.maximumNumberOfDisplayableRows,
+		OriginalEpisodeTitle:                             g.originalEpisodeTitle,
+		OriginalProgramTitle:                             g.originalProgramTitle,
+		Publisher:                                        g.publisher,
+		RevisionDate:                                     g.revisionDate,
+		RevisionNumber:                                   g.revisionNumber,
+		SubtitleListReferenceCode:                        g.subtitleListReferenceCode,
+		TimecodeFirstInCue:                               g.timecodeFirstInCue,
+		TimecodeStartOfProgramme:                         g.timecodeStartOfProgramme,
+		TimecodeStatus:                                   g.timecodeStatus,
+		TotalNumberOfDisks:                               g.totalNumberOfDisks,
+		TotalNumberOfSubtitleGroups:                      g.totalNumberOfSubtitleGroups,
+		TotalNumberOfSubtitles:                           g.totalNumberOfSubtitles,
+		TotalNumberOfTTIBlocks:                           g.totalNumberOfTTIBlocks,
+		TranslatedEpisodeTitle:                           g.translatedEpisodeTitle,
+		TranslatedProgramTitle:                           g.translatedProgramTitle,
+		TranslatorContactDetails:                         g.translatorContactDetails,
+		TranslatorName:                                   g.translatorName,
+		UserDefinedArea:                                  g.userDefinedArea,
+	}
+}
+
+func (v VerifGSI) block() gsiBlock {
+	return gsiBlock{
+		characterCodeTableNumber: v.CharacterCodeTableNumber,
+		codePageNumber:           v.CodePageNumber,
+		countryOfOrigin:          v.CountryOfOrigin,
+		creationDate:             v.CreationDate,
+		diskSequenceNumber:       v.DiskSequenceNumber,
+		displayStandardCode:      v.DisplayStandardCode,
+		editorContactDetails:     v.EditorContactDetails,
+		editorName:               v.EditorName,
+		framerate:                v.Framerate,
+		languageCode:             v.LanguageCode,
+		maximumNumberOfDisplayableCharactersInAnyTextRow: v.MaximumNumberOfDisplayableCharactersInAnyTextRow,
+		maximumNumberOfDisplayableRows:                   v.MaximumNumberOfDisplayableRows,
+		originalEpisodeTitle:                             v.OriginalEpisodeTitle,
+		originalProgramTitle:                             v.OriginalProgramTitle,
+		publisher:                                        v.Publisher,
+		revisionDate:                                     v.RevisionDate,
+		revisionNumber:                                   v.RevisionNumber,
+		subtitleListReferenceCode:                        v.SubtitleListReferenceCode,
+		timecodeFirstInCue:                               v.TimecodeFirstInCue,
+		timecodeStartOfProgramme:                         v.TimecodeStartOfProgramme,
+		timecodeStatus:                                   v.TimecodeStatus,
+		totalNumberOfDisks:                               v.TotalNumberOfDisks,
+		totalNumberOfSubtitleGroups:                      v.TotalNumberOfSubtitleGroups,
+		totalNumberOfSubtitles:                           v.TotalNumberOfSubtitles,
+		totalNumberOfTTIBlocks:                           v.TotalNumberOfTTIBlocks,
+		translatedEpisodeTitle:                           v.TranslatedEpisodeTitle,
+		translatedProgramTitle:                           v.TranslatedProgramTitle,
+		translatorContactDetails:                         v.TranslatorContactDetails,
+		translatorName:                                   v.TranslatorName,
+		userDefinedArea:                                  v.UserDefinedArea,
+	}
+}
+
+// VerifSTLParseGSIBlock exposes parseGSIBlock
+func VerifSTLParseGSIBlock(b []byte) (VerifGSI, error) {
+	g, err := parseGSIBlock(b)
+	if err != nil || g == nil {
+		return VerifGSI{}, err
+	}
+	return verifGSIFrom(g), nil
+}
+
+// VerifSTLGSIBlockBytes exposes gsiBlock.bytes
+func VerifSTLGSIBlockBytes(v VerifGSI) []byte { return v.block().bytes() }
+
+// VerifSTLNewGSIBlock exposes newGSIBlock
+func VerifSTLNewGSIBlock(s Subtitles) VerifGSI { return verifGSIFrom(newGSIBlock(s)) }
+
+// VerifTTI mirrors ttiBlock with exported fields
+type VerifTTI struct {
+	CommentFlag          byte
+	CumulativeStatus     byte
+	ExtensionBlockNumber int
+	JustificationCode    byte
+	SubtitleGroupNumber  int
+	SubtitleNumber       int
+	Text                 []byte
+	TimecodeIn           time.Duration
+	TimecodeOut          time.Duration
+	VerticalPosition     int
+}
+
+// VerifSTLParseTTIBlock exposes parseTTIBlock
+func VerifSTLParseTTIBlock(p []byte, framerate int) VerifTTI {
+	t := parseTTIBlock(p, framerate)
+	return VerifTTI{
+		CommentFlag: t.commentFlag, CumulativeStatus: t.cumulativeStatus, ExtensionBlockNumber: t.extensionBlockNumber,
+		JustificationCode: t.justificationCode, SubtitleGroupNumber: t.subtitleGroupNumber, SubtitleNumber: t.subtitleNumber,
+		Text: t.text, TimecodeIn: t.timecodeIn, TimecodeOut: t.timecodeOut, VerticalPosition: t.verticalPosition,
+	}
+}
+
+// VerifSTLTTIBlockBytes exposes ttiBlock.bytes for a GSI block with the given frame rate and display standard code
+func VerifSTLTTIBlockBytes(v VerifTTI, framerate int, displayStandardCode string) []byte {
+	t := &ttiBlock{
+		commentFlag: v.CommentFlag, cumulativeStatus: v.CumulativeStatus, extensionBlockNumber: v.ExtensionBlockNumber,
+		justificationCode: v.JustificationCode, subtitleGroupNumber: v.SubtitleGroupNumber, subtitleNumber: v.SubtitleNumber,
+		text: v.Text, timecodeIn: v.TimecodeIn, timecodeOut: v.TimecodeOut, verticalPosition: v.VerticalPosition,
+	}
+	return t.bytes(&gsiBlock{framerate: framerate, displayStandardCode: displayStandardCode})
+}
+
+// VerifSTLNewTTIBlock exposes newTTIBlock
+func VerifSTLNewTTIBlock(i *Item, idx int) VerifTTI {
+	t := newTTIBlock(i, idx)
+	return VerifTTI{
+		CommentFlag: t.commentFlag, CumulativeStatus: t.cumulativeStatus, ExtensionBlockNumber: t.extensionBlockNumber,
+		JustificationCode: t.justificationCode, SubtitleGroupNumber: t.subtitleGroupNumber, SubtitleNumber: t.subtitleNumber,
+		Text: t.text, TimecodeIn: t.timecodeIn, TimecodeOut: t.timecodeOut, VerticalPosition: t.verticalPosition,
+	}
+}
+
+// VerifEncodeTextSTL exposes encodeTextSTL
+func VerifEncodeTextSTL(s string) []byte { return encodeTextSTL(s) }
+
+// VerifSTLDecode runs a fresh character handler for the given table over the bytes, one decode call per byte,
+// and returns the concatenated output and the accent left pending
+func VerifSTLDecode(table uint16, bs []byte) (out []byte, pending string, err error) {
+	h, err := newSTLCharacterHandler(table)
+	if err != nil {
+		return nil, "", err
+	}
+	for _, b := range bs {
+		out = append(out, h.decode(b)...)
+	}
+	return out, h.accent, nil
+}
+
+// VerifSTLParseOpenRow exposes parseOpenSubtitleRow with the STL styler and a fresh Latin character handler
+// primed with a pending accent byte (0 = none)
+func VerifSTLParseOpenRow(row []byte, pendingAccent byte) (lines []Line, pending string, err error) {
+	h, err := newSTLCharacterHandler(stlCharacterCodeTableNumberLatin)
+	if err != nil {
+		return nil, "", err
+	}
+	if pendingAccent != 0 {
+		h.decode(pendingAccent)
+	}
+	i := &Item{}
+	err = parseOpenSubtitleRow(i, h, func() styler { return newSTLStyler() }, row)
+	return i.Lines, h.accent, err
+}
+
+// VerifSTLParseTeletextRow exposes parseTeletextRow with the STL styler and a fresh Latin character handler
+// primed with a pending accent byte (0 = none)
+func VerifSTLParseTeletextRow(row []byte, pendingAccent byte) (lines []Line, pending string, err error) {
+	h, err := newSTLCharacterHandler(stlCharacterCodeTableNumberLatin)
+	if err != nil {
+		return nil, "", err
+	}
+	if pendingAccent != 0 {
+		h.decode(pendingAccent)
+	}
+	i := &Item{}
+	parseTeletextRow(i, h, func() styler { return newSTLStyler() }, row)
+	return i.Lines, h.accent, nil
+}
